@@ -3,8 +3,12 @@ use mc::common::Tier;
 fn main() {
     let args: Vec<String> = std::env::args().collect();
     if args.len() < 2 { eprintln!("usage: mc <property> [quick|thorough] | mc replay <file>"); std::process::exit(2); }
+    if args[1] == "vclock-selftest" { let ok = mc::vclock::self_test(); println!("vclock {}", ok); std::process::exit(if ok { 0 } else { 2 }); }
     if args[1] == "replay" {
-        std::process::exit(mc::engine::run::replay_file(args.get(2).map(|s| s.as_str()).unwrap_or("")));
+        let path = args.get(2).map(|s| s.as_str()).unwrap_or("");
+        let kind = std::fs::read_to_string(path).ok().and_then(|t| serde_json::from_str::<serde_json::Value>(&t).ok());
+        if let Some(v) = &kind { if v["kind"].as_str() == Some("lifecycle-history") { std::process::exit(mc::lifecycle::replay_file(v)); } if v["kind"].as_str() == Some(mc::drivers::ws::REPLAY_KIND) { std::process::exit(mc::drivers::ws::replay_file(v)); } }
+        std::process::exit(mc::engine::run::replay_file(path));
     }
     if args[1] == "debug-determinism" {
         let tier = if args.get(3).map(|s| s.as_str()) == Some("thorough") { Tier::Thorough } else { Tier::Quick };
